@@ -373,6 +373,11 @@ def execute(trace, ctx):
                 if gname is not None:
                     if via == "graph":
                         Graph(st, hid).remove(pat)
+                    elif via == "cg" and gname == graphs[0] and op["uid"] % 2:
+                        # the graph of the quad is the conjunctive graph object itself: its own (default) graph is meant
+                        ctx.probe("remove-with-the-conjunctive-graph-as-graph")
+                        cgx = ConjunctiveGraph(st, identifier=T(graphs[0]))
+                        cgx.remove(pat + (cgx,))
                     elif via == "cg":
                         ConjunctiveGraph(st, identifier=T(graphs[0])).remove(pat + (Graph(st, T(gname)),))
                     elif via == "handed-out":
